@@ -457,6 +457,12 @@ def _def_case(ch):
                 args.append(bad)
             else:
                 args.append(ok)
+        if sig[j] == "i" and ch.bool():
+            # the same definition has accepted an INTEGRAL float for that parameter just before
+            # (in the valid twin too): acceptance is decided per call, not remembered per type
+            warm = ["g", g, [["ix", reg, 0] if s == "q" else ["n", 2.0] if i == j else ["n", 1] for i, s in enumerate(sig)]]
+            prog["body"].append(warm)
+            fault["body"].append(copy.deepcopy(warm))
         fault["body"].append(["g", g, args])
         desc = f"kind:{sig[j]}"
     elif kind == "kind-after-substitution":
@@ -465,6 +471,10 @@ def _def_case(ch):
             fault["macros"].append({"name": "mzz", "params": ["pz"], "body": ["seq", [["g", "U1", [["id", "pz"]]]]]})
             fault["body"].append(["g", "mzz", [["n", 0.5]]])
         else:
+            if ch.bool():
+                warm = ["g", "N1", [["ix", reg, 0], ["n", 4.0]]]
+                prog["body"].append(warm)
+                fault["body"].append(copy.deepcopy(warm))
             fault["macros"].append({"name": "mzz", "params": ["pz"], "body": ["seq", [["g", "N1", [["ix", reg, 0], ["id", "pz"]]]]]})
             fault["body"].append(["g", "mzz", [["n", 0.5]]])
         expect_stage = "macro"
